@@ -98,17 +98,17 @@ def cases(tier, seed):
         for rep in range(6 if thorough else 2):
             out.append(dict(id='perm-%s-%d' % (kind, rep), kind='perm', split=kind, seed=seed * 811 + idx, maxn=6 if thorough else 5))
             idx += 1
-    for rep in range(60 if thorough else 10):
+    for rep in range(240 if thorough else 10):
         out.append(dict(id='dups-%d' % rep, kind='dups', seed=seed * 613 + rep))
-    for rep in range(200 if thorough else 24):
+    for rep in range(1200 if thorough else 24):
         out.append(dict(id='rand-%d' % rep, kind='rand', seed=seed * 977 + rep, count=20 if thorough else 8))
-    for rep in range(120 if thorough else 16):
+    for rep in range(720 if thorough else 16):
         out.append(dict(id='inter-%d' % rep, kind='inter', seed=seed * 331 + rep, count=12 if thorough else 6))
     for rep in range(40 if thorough else 6):
         out.append(dict(id='real-%d' % rep, kind='real', seed=seed * 457 + rep, count=6))
     for rep in range(12 if thorough else 2):
         out.append(dict(id='many-%d' % rep, kind='many', seed=seed * 523 + rep, count=2))
-    for rep in range(30 if thorough else 6):
+    for rep in range(180 if thorough else 6):
         out.append(dict(id='refrag-%d' % rep, kind='refrag', seed=seed * 541 + rep, count=10))
     for rep in range(12 if thorough else 3):
         out.append(dict(id='signed-%d' % rep, kind='signed', seed=seed * 587 + rep, count=6))
